@@ -49,10 +49,11 @@ def main():
   ap.add_argument("--keep", action="store_true")
   ap.add_argument("--seed", default="12345")
   a = ap.parse_args()
-  root = f"/tmp/mut/{a.name}"
+  root = os.environ.get("MUT_ROOT", "/tmp/mut") + f"/{a.name}"
   shutil.rmtree(root, ignore_errors=True)
   os.makedirs(root)
-  os.makedirs("/tmp/mut/results", exist_ok=True)
+  RES = os.environ.get("MUT_ROOT", "/tmp/mut") + "/results"
+  os.makedirs(RES, exist_ok=True)
   wt, vf = f"{root}/repo", f"{root}/verif"
   res = dict(prop=a.prop, name=a.name, patch=os.path.abspath(a.patch))
   t0 = time.time()
@@ -79,7 +80,7 @@ def main():
         miss2 = suite(wt)
         miss = sorted(set(miss) & set(miss2))
       res["suite_not_passing"] = miss[:10]
-    sh(["rsync", "-a", "--exclude", ".git", "--exclude", "replays", "--exclude", "seeded", "/verif/", vf + "/"])
+    sh(["rsync", "-a", "--exclude", ".git", "--exclude", "replays", "--exclude", "seeded", os.environ.get("VERIF_SRC", "/verif").rstrip("/") + "/", vf + "/"])
     env = dict(ENV, VERIF_REPO=wt)
     rc, out = sh([f"{vf}/check", a.prop, "--tier", a.tier, "--seed", a.seed], env=env, timeout=7200)
     res["check_rc"] = rc
@@ -106,13 +107,13 @@ def main():
         rc2, _ = sh([f"{vf}/check", a.prop, "--replay", r], env=dict(ENV, VERIF_REPO="/repo"), timeout=1800)
         info["replay_on_mutant_rc"], info["replay_on_clean_rc"] = rc1, rc2
       res["replays"].append(info)
-      os.makedirs(f"/tmp/mut/results/{a.name}_replays", exist_ok=True)
+      os.makedirs(f"{RES}/{a.name}_replays", exist_ok=True)
       shutil.copy(r, f"/tmp/mut/results/{a.name}_replays/")
-    open(f"/tmp/mut/results/{a.name}.log", "w").write(out)
+    open(f"{RES}/{a.name}.log", "w").write(out)
     return res
   finally:
     res["wall_s"] = round(time.time() - t0)
-    json.dump(res, open(f"/tmp/mut/results/{a.name}.json", "w"), indent=1)
+    json.dump(res, open(f"{RES}/{a.name}.json", "w"), indent=1)
     print(json.dumps(res))
     if not a.keep:
       sh(["git", "-C", "/repo", "worktree", "remove", "--force", wt])
